@@ -14,8 +14,8 @@ type Plan struct {
 	// Judge lists the oracles (property ids) that give verdicts on this run.
 	Judge []string `json:"judge"`
 
-	H      Dur `json:"h"`      // heartbeat interval (all instances)
-	TTL    Dur `json:"ttl"`    // election TTL == bucket MaxAge
+	H      Dur    `json:"h"`   // heartbeat interval (all instances)
+	TTL    Dur    `json:"ttl"` // election TTL == bucket MaxAge
 	Bucket string `json:"bucket,omitempty"`
 
 	Insts   []InstCfg `json:"insts"`
@@ -57,9 +57,9 @@ type InstCfg struct {
 
 type StoreCfg struct {
 	// Request and response legs of every store operation: uniform in [Lo,Hi].
-	Req            [2]Dur `json:"req"`
-	Resp           [2]Dur `json:"resp"`
-	WatchDelay     [2]Dur `json:"watch_delay"`
+	Req        [2]Dur `json:"req"`
+	Resp       [2]Dur `json:"resp"`
+	WatchDelay [2]Dur `json:"watch_delay"`
 	// Dialect: "nats" (real client error values) or "mock" (natsmock texts).
 	Dialect string `json:"dialect,omitempty"`
 	// ClientTimeout: how long the simulated client waits for a lost response.
@@ -110,12 +110,12 @@ type Action struct {
 	// Trigger: At (absolute virtual time) or, if OpN>0, the moment instance
 	// Inst's OpN-th store operation (1-based) reaches Phase
 	// ("invoke","apply","return"), plus Delay.
-	At    Dur    `json:"at"`
-	OpN   int    `json:"op_n,omitempty"`
+	At  Dur `json:"at"`
+	OpN int `json:"op_n,omitempty"`
 	// OpKind: when set, OpN counts only the instance's operations of this kind (create, update, ...)
 	OpKind string `json:"op_kind,omitempty"`
-	Phase string `json:"phase,omitempty"`
-	Delay Dur    `json:"delay,omitempty"`
+	Phase  string `json:"phase,omitempty"`
+	Delay  Dur    `json:"delay,omitempty"`
 
 	Kind string `json:"kind"`
 	Inst int    `json:"inst"` // index into Plan.Insts (ignored for outsider actions)
@@ -135,22 +135,22 @@ type Action struct {
 
 // Fault kinds.
 const (
-	FDropReq   = "drop_req"   // request never reaches the store; client times out
-	FDropResp  = "drop_resp"  // applied, acknowledgement lost; client times out
-	FError     = "error"      // immediate error, not applied
-	FHang      = "hang"       // never applied, never answered (until client timeout)
-	FSlow      = "slow"       // extra latency Arg
-	FPartition = "partition"  // all ops dropped, watch deliveries withheld
-	FWatchDrop = "watch_drop" // watch events for the instance are dropped
-	FWatchHold = "watch_hold" // watch events held back until the window ends
-	FWatchDup  = "watch_dup"  // each event delivered twice
-	FWatchFail = "watch_fail" // Watch() call fails
+	FDropReq    = "drop_req"    // request never reaches the store; client times out
+	FDropResp   = "drop_resp"   // applied, acknowledgement lost; client times out
+	FError      = "error"       // immediate error, not applied
+	FHang       = "hang"        // never applied, never answered (until client timeout)
+	FSlow       = "slow"        // extra latency Arg
+	FPartition  = "partition"   // all ops dropped, watch deliveries withheld
+	FWatchDrop  = "watch_drop"  // watch events for the instance are dropped
+	FWatchHold  = "watch_hold"  // watch events held back until the window ends
+	FWatchDup   = "watch_dup"   // each event delivered twice
+	FWatchFail  = "watch_fail"  // Watch() call fails
 	FWatchClose = "watch_close" // server closes the watch channel at From
 )
 
 type Fault struct {
 	Kind string `json:"kind"`
-	Inst int    `json:"inst"` // -1 = all
+	Inst int    `json:"inst"`         // -1 = all
 	Op   string `json:"op,omitempty"` // "", "create","update","get","delete","watch"
 	From Dur    `json:"from"`
 	To   Dur    `json:"to"` // exclusive; 0 = forever
